@@ -251,6 +251,25 @@ func c11(r *Run) {
 		r.neverReach(fmt.Sprintf("C11.R2:nothing-after-hup#%d", i+1), "after the hang-up verdict nothing else is dispatched for that slot in this iteration (its token is gone and OnHup is queued once)", disp, site, []Start{After(site)},
 			func(x ssa.Instruction) bool { return usesValue(x, slot) }, isIns(getCall), nil, nil, "no use of the slot before the next fetch")
 	}
+	// the count the hang-up decision looks at is per event: it is not carried from one dispatch iteration to the next
+	for i, site := range j2 {
+		carried := false
+		detail := "per-iteration value"
+		for _, g := range guardChain(site.Block()) {
+			if pol, ok := totalZero(g.Cond); ok && pol == g.Branch || ok {
+				b := g.Cond.(*ssa.BinOp)
+				x := b.X
+				if isConstEq(0)(b.X) {
+					x = b.Y
+				}
+				if h := loopCarried(x, getCall.Block(), map[ssa.Value]bool{}, 0); h != nil {
+					carried = true
+					detail = "the tested count flows through a phi of the dispatch loop header (b" + fmt.Sprint(h.Index) + "): bytes read for an earlier event suppress this event's hang-up"
+				}
+			}
+		}
+		r.ob(fmt.Sprintf("C11.R3:read-count-per-event#%d", i+1), "the 'nothing was read' test that decides a hang-up counts only the bytes read for this event", disp, site, !carried, detail, true)
+	}
 	for _, k := range []string{"read-error", "send-error", "hup-nothing-read"} {
 		r.ob("C11.R3:verdict-kind-present:"+k, "the dispatch function reports this kind of hang-up", disp, nil, kinds[k] >= 1, fmt.Sprintf("%d sites", kinds[k]), false)
 	}
@@ -484,4 +503,38 @@ func ackRules(r *Run, prefix string, fn *ssa.Function) {
 			r.ob(key+":vectors", "the vectors handed to "+c.io.Name()+" are the ones operator."+c.src+" returned", fn, call, okSrc, "bs = operator."+c.src+"(...)", true)
 		}
 	}
+}
+
+// loopCarried: does the value depend on a phi placed in a loop header that encloses `inner`
+// (i.e. is it carried from one iteration of that loop to the next)? Returns the header block.
+func loopCarried(v ssa.Value, inner *ssa.BasicBlock, seen map[ssa.Value]bool, depth int) *ssa.BasicBlock {
+	if v == nil || seen[v] || depth > 12 {
+		return nil
+	}
+	seen[v] = true
+	switch x := v.(type) {
+	case *ssa.Phi:
+		hb := x.Block()
+		if hb.Dominates(inner) && hb != inner {
+			// a header has a predecessor it dominates (back edge)
+			for _, p := range hb.Preds {
+				if hb.Dominates(p) {
+					return hb
+				}
+			}
+		}
+		for _, e := range x.Edges {
+			if h := loopCarried(e, inner, seen, depth+1); h != nil {
+				return h
+			}
+		}
+	case *ssa.BinOp:
+		if h := loopCarried(x.X, inner, seen, depth+1); h != nil {
+			return h
+		}
+		return loopCarried(x.Y, inner, seen, depth+1)
+	case *ssa.Convert:
+		return loopCarried(x.X, inner, seen, depth+1)
+	}
+	return nil
 }
